@@ -41,6 +41,11 @@ func otfToBCP47(script otfScript, lang otfLang) (language.Tag, error) {
 		tag += "-" + bcpScript
 	}
 
+	// Script tags can be padded with spaces (e.g. "lao ", "nko ", "yi  "),
+	// but spaces are not allowed in BCP 47 private use subtags.
+	for len(script) > 0 && script[len(script)-1] == ' ' {
+		script = script[:len(script)-1]
+	}
 	tag += "-x-" + string(script)
 	for len(lang) > 0 && lang[len(lang)-1] == ' ' {
 		lang = lang[:len(lang)-1]
@@ -65,6 +70,9 @@ func bcp47ToOtf(tag language.Tag) (otfScript, otfLang, error) {
 		script = m[1]
 		if script == "dflt" {
 			script = "DFLT"
+		}
+		for len(script) < 4 {
+			script += " "
 		}
 		if len(m) > 2 {
 			lang = strings.ToUpper(m[2])
